@@ -140,20 +140,17 @@ fn delivery_for(drv: &dyn Driver, bytes: &[u8], c: &Case, with_interrupts: bool)
     }
 }
 
-fn check(drv: &dyn Driver, c: &Case, with_interrupts: bool) -> Verdict {
+/// Plain-slice read vs adversarial delivery of the same bytes. `Err` = the failures; `Ok` = the
+/// delivery statistics and the number of records.
+fn compare(drv: &dyn Driver, c: &Case, with_interrupts: bool, data: &Arc<Vec<u8>>, what: &str, noodles_written: bool) -> Result<(crate::io_adv::chunk::ReadStats, usize), Vec<Fail>> {
     let name = drv.name();
-    let bytes = match drivers::write_to_vec(drv, &c.doc) {
-        Ok(b) => b,
-        Err(e) => return fail1(format!("c12.baseline-write-error:{name}"), format!("writing the generated document failed: {e}")),
-    };
-    let data = Arc::new(bytes);
     let opts = ReadOpts::default();
-    let (plain, _) = drv.read(&data, &Delivery::Plain, &c.doc, &opts);
-    if plain.iter().any(|e| matches!(e, Ev::Err { .. } | Ev::Runaway)) {
-        return fail1(format!("c12.baseline-read-error:{name}"), format!("plain-slice read of noodles' own output fails: {}", summarize(&plain)));
+    let (plain, _) = drv.read(data, &Delivery::Plain, &c.doc, &opts);
+    if noodles_written && plain.iter().any(|e| matches!(e, Ev::Err { .. } | Ev::Runaway)) {
+        return Err(vec![Fail::new(format!("c12.baseline-read-error:{name}"), format!("plain-slice read of noodles' own output fails: {}", summarize(&plain)))]);
     }
-    let delivery = delivery_for(drv, &data, c, with_interrupts);
-    let (adv, stats) = drv.read(&data, &delivery, &c.doc, &opts);
+    let delivery = delivery_for(drv, data, c, with_interrupts);
+    let (adv, stats) = drv.read(data, &delivery, &c.doc, &opts);
     let st = stats.get();
     if adv != plain {
         // classify
@@ -163,7 +160,7 @@ fn check(drv: &dyn Driver, c: &Case, with_interrupts: bool) -> Verdict {
         });
         let idx = adv.iter().zip(plain.iter()).position(|(a, b)| a != b).unwrap_or(adv.len().min(plain.len()));
         let detail = format!(
-            "first difference at event {idx}: plain={} adversary={} | plain: {} | adversary: {} | delivery={}",
+            "{what}: first difference at event {idx}: plain={} adversary={} | plain: {} | adversary: {} | delivery={}",
             plain.get(idx).map(|e| trunc(&format!("{e:?}"), 300)).unwrap_or("<none>".into()),
             adv.get(idx).map(|e| trunc(&format!("{e:?}"), 300)).unwrap_or("<none>".into()),
             summarize(&plain),
@@ -182,10 +179,28 @@ fn check(drv: &dyn Driver, c: &Case, with_interrupts: bool) -> Verdict {
                 }
                 Err(fails.0)
             }
-            _ => fail1(format!("c12.differs:{name}"), detail),
+            _ => Err(vec![Fail::new(format!("c12.differs:{name}"), detail)]),
         };
     }
-    let n_records = drivers::records_of(&plain).len();
+    Ok((st, drivers::records_of(&plain).len()))
+}
+
+fn check(drv: &dyn Driver, c: &Case, with_interrupts: bool) -> Verdict {
+    let name = drv.name();
+    let bytes = match drivers::write_to_vec(drv, &c.doc) {
+        Ok(b) => b,
+        Err(e) => return fail1(format!("c12.baseline-write-error:{name}"), format!("writing the generated document failed: {e}")),
+    };
+    let data = Arc::new(bytes);
+    let (st, n_records) = compare(drv, c, with_interrupts, &data, "file written by noodles", true)?;
+    // text formats: the same relation on the harness's own rendering of the document, which keeps
+    // what noodles' writers normalise away (CRLF, missing final newline, raw UTF-8)
+    let mut raw_short = 0;
+    let raw = drv.raw_input(&c.doc).filter(|r| r[..] != data[..]);
+    if let Some(raw) = &raw {
+        let (st2, _) = compare(drv, c, with_interrupts, &Arc::new(raw.clone()), "text rendered by the harness", false)?;
+        raw_short = st2.short_reads;
+    }
     let nontrivial = st.short_reads > 0 && (!with_interrupts || st.interrupts > 0);
     Ok(Pass::new(nontrivial, key_of(c))
         .label_if(st.short_reads > 0, "short-reads")
@@ -197,7 +212,11 @@ fn check(drv: &dyn Driver, c: &Case, with_interrupts: bool) -> Verdict {
         .label_if(matches!(c.wrap, Wrap::BufReader(_)), "bufreader-capacity")
         .label_if(n_records >= 2, "records>=2")
         .label_if(n_records == 0, "no-records")
-        .label_if(data.len() > 65536, "file>64KiB"))
+        .label_if(raw_short > 0, "raw-text-input")
+        .label_if(raw.as_ref().map(|r| r.windows(2).any(|w| w == b"\r\n")).unwrap_or(false), "raw-text-crlf")
+        .label_if(raw.as_ref().map(|r| !r.is_ascii()).unwrap_or(false), "raw-text-non-ascii")
+        .label_if(data.len() > 65536, "file>64KiB")
+        .evals(1 + raw.is_some() as u64))
 }
 
 pub fn property() -> Property {
@@ -207,7 +226,7 @@ pub fn property() -> Property {
             let name = if with_interrupts { format!("{}+intr", drv.name()) } else { drv.name().to_string() };
             let dname = drv.name();
             let heavy = matches!(dname, "bgzf");
-            let (q, t) = if heavy { (120, 3000) } else { (200, 6000) };
+            let (q, t) = if heavy { (400, 6000) } else { (1500, 20000) };
             subs.push(
                 ClosureSub::<Case> {
                     name,
